@@ -630,25 +630,27 @@ def full_stack_pending_commands(ctx, thorough):
     import fullstack
     text = b"ER05 compressor"
     for gen in (4, 5):
-        for n in (0, 1, 5, 8, 9, 10):
-            sc = dict(inst=fullstack.INST, horizon=500, ac_state=[dict(id=0, power=1, mode=4, fan=0, setpoint=22, temp=235, err=0)], err_text={0: b""},
-                      changes=[(120, 0, 5, text)], faults=[(100, "refuse"), (105, "eof"), (200, "accept")],
+        # (an outage of 12 s: the commands are still wanted when the connection returns; of 37 s: all of them have outlived the 30 s their
+        # sender asked for and are discarded - they hold no room against the refresh)
+        for n, back in [(n, 200) for n in (0, 1, 5, 8, 9, 10)] + [(n, 400) for n in (5, 9, 10)]:
+            sc = dict(inst=fullstack.INST, horizon=back + 300, ac_state=[dict(id=0, power=1, mode=4, fan=0, setpoint=22, temp=235, err=0)], err_text={0: b""},
+                      changes=[(120, 0, 5, text)], faults=[(100, "refuse"), (105, "eof"), (back, "accept")],
                       calls=[(106 + i, ["power", "zone", "toggle"][i % 3]) for i in range(n)])
             b = fullstack.run(gen, sc)
-            ctx.case(("full-stack-pending-commands", gen, n))
+            ctx.case(("full-stack-pending-commands", gen, n, back))
             if b.get("init_result") is not True:
                 ctx.tie_broken("C14:console-script", "the full-stack console no longer initialises the AirTouch %d object" % gen)
                 continue
             got = _error_info_of(b["view"])
-            refresh = [r for r in b["requests"] if r[0] >= 200 and r[2] in (((0x2D, None), (0x2B, None)) if gen == 4 else ((0xC0, 0x23), (0xC0, 0x21)))]
+            refresh = [r for r in b["requests"] if r[0] >= back and r[2] in (((0x2D, None), (0x2B, None)) if gen == 4 else ((0xC0, 0x23), (0xC0, 0x21)))]
             ctx.count("full-stack:pending-commands:%d:%s" % (n, "ok" if got == (5, text) else "differs"))
             if got != (5, text):
                 # with the buffer exactly full the refresh requests are refused (listed in known_findings.txt under this key); any other
                 # number of pending commands has its own key and is reported
-                key = "C14:full-stack:refresh-refused-full-buffer" if (n == 10 and not refresh) else "C14:%d:full-stack:pending-commands" % gen
-                ctx.violation(key, "AirTouch %d over the real socket: %d commands were accepted during an outage in which the console's AC error became 5 '%s'; "
+                key = "C14:full-stack:refresh-refused-full-buffer" if (n == 10 and back == 200 and not refresh) else "C14:%d:full-stack:pending-commands" % gen
+                ctx.violation(key, "AirTouch %d over the real socket: %d commands were accepted during an outage (ticks 105..%d) in which the console's AC error became 5 '%s'; "
                               "300 ticks after the reconnection the client shows error_info = %s; status requests seen by the console after the reconnection: %s" % (
-                                  gen, n, text.decode(), got, [r[0] for r in refresh]), kind="history", level="full-stack-pending", gen=gen, pending=n,
+                                  gen, n, back, text.decode(), got, [r[0] for r in refresh]), kind="history", level="full-stack-pending", gen=gen, pending=n, back=back,
                               implementation_output=str(got), spec_verdict=str((5, text)))
 
 
